@@ -262,6 +262,7 @@ func TestC02(t *testing.T) {
 			"oracle: the token echoed in the frame received on (client, stream) is the token sent there (errors carry the token too); beyond the limit a request gets its own single proxy error; "+
 			"non-trivial = >=2 requests in flight on one backend connection released out of order, or equal stream ids live on >=2 clients; distinct by case content")
 	defer finish(t, rec)
+	rec.SetJournalAll(true)
 	rec.Assume("tokens make a request recognisable: statement text for QUERY/PREPARE, bound value for EXECUTE/BATCH; the fake backend echoes them")
 
 	runProp(t, rec, "storm", perShard(evid.Pick(500, 20000)), func(rt *rapid.T) stormCase {
